@@ -284,6 +284,156 @@ def shrink(ops, fails):
     return ops
 
 
+# ------------------------------------------------------------------ (a'') aggregates over arrayed constants (wave 6)
+AGG_KINDS = [("sum", lambda v: v.arr_sum()), ("prod", lambda v: v.arr_prod()), ("mean", lambda v: v.arr_mean()),
+             ("median", lambda v: v.arr_median()), ("stddev", lambda v: v.arr_stddev()), ("rank1", lambda v: v.arr_rank(1)),
+             ("rank2", lambda v: v.arr_rank(2))]
+AGG_INIT = {"w": [1.0, 2.0, 4.0], "m": [[1.0, 2.0], [3.0, 5.0]], "ov": [0.5, 1.5], "c": 2.0}
+AGG_VALUES = [7.0, 0.25, 3.0, 10.0, 1.5]
+
+
+def agg_build(vals):
+    """constant vector `w` (3), constant matrix `mod.m` (2x2), converter vector `o v` (2), constant `c`; one converter per
+    (aggregate, array) — names with blanks —, and a downstream chain d = sum(w)*2 + mean(m), flow f = prod(o v)*c,
+    stock s (initial value = converter rank1(w)) fed by f."""
+    from BPTK_Py import Model
+    m = Model(starttime=START, stoptime=START + KMAX * DT, dt=DT, name="c08agg")
+    c = m.constant("c"); c.equation = vals["c"]
+    w = m.constant("w"); w.setup_vector(3, list(vals["w"]))
+    mm = m.constant("mod.m"); mm.setup_matrix([2, 2], [list(r) for r in vals["m"]])
+    ov = m.converter("o v"); ov.setup_vector(2, list(vals["ov"]))
+    names = ["c"] + ["w[%d]" % i for i in range(3)] + ["mod.m[%d][%d]" % (i, j) for i in range(2) for j in range(2)] + ["o v[0]", "o v[1]"]
+    aggs = {}
+    for kn, f in AGG_KINDS:
+        for vn, v in (("w", w), ("mod.m", mm), ("o v", ov)):
+            a = m.converter("agg %s %s" % (kn, vn)); a.equation = f(v)
+            aggs[(kn, vn)] = a; names.append(a.name)
+    d = m.converter("d"); d.equation = aggs[("sum", "w")] * 2.0 + aggs[("mean", "mod.m")]
+    fl = m.flow("f"); fl.equation = aggs[("prod", "o v")] * c
+    st = m.stock("s"); st.initial_value = aggs[("rank1", "w")]; st.equation = fl
+    names += ["d", "f", "s"]
+    return m, {"w": w, "m": mm, "ov": ov, "c": c}, names
+
+
+def agg_apply(m, h, vals, op):
+    """apply one operation to the real model and to the record of the current definitions"""
+    k = op[0]
+    if k == "wset": h["w"][op[1]] = op[2]; vals["w"][op[1]] = op[2]                       # w[i] = x
+    elif k == "wconst": m.constant("w[%d]" % op[1]).equation = op[2]; vals["w"][op[1]] = op[2]
+    elif k == "mset": h["m"][op[1]][op[2]] = op[3]; vals["m"][op[1]][op[2]] = op[3]         # m[i][j] = x
+    elif k == "mconst": m.constant("mod.m[%d][%d]" % (op[1], op[2])).equation = op[3]; vals["m"][op[1]][op[2]] = op[3]
+    elif k == "ovset": h["ov"][op[1]] = op[2]; vals["ov"][op[1]] = op[2]
+    elif k == "ovconv": m.converter("o v[%d]" % op[1]).equation = op[2]; vals["ov"][op[1]] = op[2]
+    elif k == "cset": h["c"].equation = op[1]; vals["c"] = op[1]
+    elif k == "reset": m.reset_cache()
+    elif k == "eval": m.evaluate_equation(op[1], START + op[2] * DT)
+
+
+def agg_read(m, names):
+    out = {}
+    for nm in names:
+        for k in range(KMAX + 1):
+            try:
+                v = m.evaluate_equation(nm, START + k * DT)
+                out[(nm, k)] = "nan" if v != v else fbits(v)
+            except Exception as e:  # noqa
+                out[(nm, k)] = "ERR:" + type(e).__name__
+    return out
+
+
+def agg_check(ops):
+    """property on the real code: after `ops` every element equals what a model freshly built from the FINAL definitions
+    yields; the function strings of the aggregates do not change when a member is re-defined."""
+    import copy
+    vals = copy.deepcopy(AGG_INIT)
+    m, h, names = agg_build(vals)
+    fs0 = {nm: m.converters[nm].function_string for nm in names if nm.startswith("agg ")}
+    for op in ops:
+        agg_apply(m, h, vals, op)
+    a = agg_read(m, names)
+    fresh, _, _ = agg_build(vals)
+    b = agg_read(fresh, names)
+    for key in a:
+        if a[key] != b[key]:
+            nm = key[0]
+            return {"element": nm, "k": key[1], "after_history": a[key], "fresh_model": b[key],
+                    "function_string": m.equations and (m.converters[nm].function_string if nm in m.converters else None)}
+    for nm, f0 in fs0.items():
+        if m.converters[nm].function_string != f0:
+            return {"element": nm, "function_string_before": f0, "function_string_after": m.converters[nm].function_string}
+    return None
+
+
+def agg_show(op):
+    k = op[0]
+    return {"wset": lambda: "w[%d] = %r" % (op[1], op[2]), "wconst": lambda: "model.constant('w[%d]').equation = %r" % (op[1], op[2]),
+            "mset": lambda: "m[%d][%d] = %r" % (op[1], op[2], op[3]),
+            "mconst": lambda: "model.constant('mod.m[%d][%d]').equation = %r" % (op[1], op[2], op[3]),
+            "ovset": lambda: "ov[%d] = %r" % (op[1], op[2]), "ovconv": lambda: "model.converter('o v[%d]').equation = %r" % (op[1], op[2]),
+            "cset": lambda: "c.equation = %r" % op[1], "reset": lambda: "model.reset_cache()",
+            "eval": lambda: "%s(t_%d)" % (op[1], op[2])}[k]()
+
+
+def agg_cases(chk):
+    """every single member edit through both API routes after everything was evaluated (exhaustive), plus seeded
+    histories of several edits, reads and resets"""
+    reads = [("eval", "d", 2), ("eval", "s", 3), ("eval", "agg stddev mod.m", 1), ("eval", "agg rank2 w", 0), ("eval", "agg median o v", 2)]
+    singles = ([(r, i, 7.0) for r in ("wset", "wconst") for i in range(3)] +
+               [(r, i, j, 7.0) for r in ("mset", "mconst") for i in range(2) for j in range(2)] +
+               [(r, i, 7.0) for r in ("ovset", "ovconv") for i in range(2)] + [("cset", 7.0)])
+    out = [reads + [e] for e in singles] + [[e] for e in singles]
+    rng = chk.rng.fork("c08-agg")
+    for _ in range(60 if chk.quick else 800):
+        ops = []
+        for _ in range(rng.range(2, 8)):
+            r = rng.below(10)
+            x = rng.choice(AGG_VALUES)
+            if r < 3: ops.append(rng.choice(reads))
+            elif r < 4: ops.append(("reset",))
+            elif r < 6: ops.append((rng.choice(["wset", "wconst"]), rng.below(3), x))
+            elif r < 8: ops.append((rng.choice(["mset", "mconst"]), rng.below(2), rng.below(2), x))
+            elif r < 9: ops.append((rng.choice(["ovset", "ovconv"]), rng.below(2), x))
+            else: ops.append(("cset", x))
+        out.append(ops)
+    return out
+
+
+def run_agg(chk):
+    first, n, dist = None, 0, {}
+    for ops in agg_cases(chk):
+        n += 1
+        for o in ops:
+            dist[o[0]] = dist.get(o[0], 0) + 1
+        chk.case(("agg", tuple(map(tuple, ops))), nontrivial=any(o[0] == "eval" for o in ops) and any(o[0] not in ("eval", "reset") for o in ops))
+        if first is None:
+            mm = agg_check(ops)
+            if mm is not None:
+                first = (ops, mm)
+    chk.cov["aggregate_family"] = {"histories": n, "operations": dist,
+                                   "aggregates": [k for k, _ in AGG_KINDS], "arrays": ["constant vector w[3]", "constant matrix mod.m[2][2]", "converter vector 'o v'[2]"]}
+    return first
+
+
+def probe_operands_through_memo():
+    """re-define an operand and check that the function string of its user is unchanged AND the user's value follows —
+    for an aggregate over a constant vector and for a plain product with a constant."""
+    from BPTK_Py import Model
+    m = Model(starttime=START, stoptime=START + DT, dt=DT, name="c08o")
+    w = m.constant("w"); w.setup_vector(2, [1.0, 2.0])
+    c = m.constant("c"); c.equation = 2.0
+    x = m.converter("x"); x.equation = w.arr_sum()
+    y = m.converter("y"); y.equation = w.arr_mean()
+    k = m.converter("k"); k.equation = c * 3.0
+    fs = (x.function_string, y.function_string, k.function_string)
+    before = (m.evaluate_equation("x", START), m.evaluate_equation("y", START), m.evaluate_equation("k", START))
+    w[1] = 5.0
+    m.constant("w[0]").equation = 3.0
+    c.equation = 5.0
+    after = (m.evaluate_equation("x", START), float(m.evaluate_equation("y", START)), m.evaluate_equation("k", START))
+    return (fs == (x.function_string, y.function_string, k.function_string) and before[0] == 3.0 and after == (8.0, 4.0, 15.0)
+            and all("memoize('w[0]'" in f and "memoize('w[1]'" in f for f in fs[:2]))
+
+
 # ------------------------------------------------------------------ probes (mechanism facts)
 def probe_initial_value():
     r = Real(["s", "o"])
@@ -322,17 +472,18 @@ def probe_first_store():
 def gen_lean(f):
     b = lambda x: "true" if x else "false"
     cfg = (f"def cfg : Cfg := {{ initialValueResetsCache := {b(f['init'])}, addEquationResetsCache := {b(f['add'])}, "
-           f"memoizeFirstStoreWins := {b(f['first'])} }}\n")
-    if f["init"] and f["add"] and f["first"]:
+           f"memoizeFirstStoreWins := {b(f['first'])}, operandsThroughMemo := {b(f['operands'])} }}\n")
+    if f["init"] and f["add"] and f["first"] and f["operands"]:
         body = "theorem holds : C08_full cfg := C08_full_of_good cfg (by decide)\n#print axioms holds\n"
     else:
         thm = ("C08_witness_stale_init_full" if not f["init"] else
-               "C08_witness_stale_add_full" if not f["add"] else "C08_witness_race_full")
+               "C08_witness_stale_add_full" if not f["add"] else
+               "C08_witness_race_full" if not f["first"] else "C08_witness_baked_full")
         body = (f"theorem violated : ¬ C08_full cfg := {thm} cfg (by decide)\n#print axioms violated\n"
                 "#print axioms C08_partial_evals\n#print axioms C08_deterministic_threads\n")
     # the `memoize` of XMILE-generated model classes (no edit API: only the store rule is a fact of its own)
     body += (f"def cfgX : Cfg := {{ initialValueResetsCache := true, addEquationResetsCache := true, "
-             f"memoizeFirstStoreWins := {b(f['xfirst'])} }}\n")
+             f"memoizeFirstStoreWins := {b(f['xfirst'])}, operandsThroughMemo := true }}\n")
     if f["xfirst"]:
         body += "theorem holdsX : C08_conc cfgX := C08_stochastic_threads cfgX (by decide)\n#print axioms holdsX\n"
     else:
@@ -519,7 +670,9 @@ def seq_cases(chk):
 
 def run_seq(chk, facts):
     cases, n_exh, L = seq_cases(chk)
-    req = ["cfg %d %d %d" % (facts["init"], facts["add"], facts["first"])]
+    # the operands bit is a fact about the term generator of aggregates, which are not part of the driver's expression
+    # language (they are checked by the aggregate family against freshly built models): the streams run the model with 1
+    req = ["cfg %d %d %d 1" % (facts["init"], facts["add"], facts["first"])]
     real = ["ok"]
     kinds_hist = {}
     stale = []
@@ -962,7 +1115,7 @@ def run_conc(chk, facts, scratch=None):
             scheds = scheds[:1 + E * len(reqs)] + scheds[1 + E * len(reqs)::3]
             full2 = False
         dist[name] = {"line_events": E, "schedules": len(scheds), "all_two_preemptions": full2}
-        header = (["cfg %d %d %d" % (facts["init"], facts["add"], facts["xfirst" if xm else "first"])] + Real(kinds).new_lines() +
+        header = (["cfg %d %d %d 1" % (facts["init"], facts["add"], facts["xfirst" if xm else "first"])] + Real(kinds).new_lines() +
                   [op_line(o) for o in defs])
         req += header; exp += ["ok"] * len(header); meta += [None] * len(header)
         seen = set()
@@ -1019,7 +1172,7 @@ def _run(chk, scratch):
     quiet_bptk_logging()
     sys.setrecursionlimit(5000)
     facts = {"init": probe_initial_value(), "add": probe_add_equation(), "first": probe_first_store(),
-             "xfirst": probe_first_store_x(scratch)}
+             "xfirst": probe_first_store_x(scratch), "operands": probe_operands_through_memo()}
     chk.notes["cfg"] = facts
     ok, why = chk.prove(gen_lean(facts))
     chk.cov["trusted_base"] = [
@@ -1050,6 +1203,7 @@ def _run(chk, scratch):
     amb, cdiff, creq, cmodel, cexp, cmeta = run_conc(chk, facts)
     xamb, xdiff, xreq, xmodel, xexp, xmeta = run_conc(chk, facts, scratch)
     xnorm = xmile_normalisation(scratch)
+    aggbad = run_agg(chk)
     chk.cov["rule"] = (f"(a) all histories FIX_PREFIX + w, w in alphabet^{L} (13 edit/reset/evaluate operations on a 4-element model), plus seeded random "
                        "histories on random models of 3..6 elements: every evaluation result and the memo contents after every evaluation are compared "
                        "with the Lean model, and every element at every grid point with a freshly built model; non-trivial = some edit follows an evaluation. "
@@ -1105,6 +1259,17 @@ def _run(chk, scratch):
         chk.add_finding("memoize-race-stochastic-xmile", "probe: in the generated memoize a second miss of one stochastic key while the first "
                         "is being computed returns a different value (check-compute-store with plain assignment)",
                         {"kind": "xschedule", "system": "xrace2", "preempt": {"6": 1}})
+    if aggbad is not None:
+        ops_, mm_ = aggbad
+        small = shrink(ops_, lambda c_: agg_check(c_) is not None)
+        mm_ = agg_check(small)
+        chk.add_finding("stale-aggregate-operand",
+                        f"after {[agg_show(o) for o in small]}: {mm_} — a model freshly built from the final definitions differs "
+                        "(w = constant vector, m = constant matrix 'mod.m', ov = converter vector 'o v'; 'agg <kind> <array>' = converter defined as that aggregate)",
+                        {"kind": "agg", "ops": small, "mismatch": mm_})
+    elif not facts["operands"]:
+        chk.add_finding("stale-aggregate-operand", "probe: x = w.arr_sum(); w[1] = 5.0: the function string of x changed or its value did not follow",
+                        {"kind": "agg", "ops": [("eval", "agg sum w", 0), ("wset", 1, 7.0)]})
     if xnorm is not None:
         chk.add_finding("xmile-memo-key-not-normalised", f"generated memoize, start 0.3 dt 0.1: {xnorm}",
                         {"kind": "xnorm", "observed": xnorm})
@@ -1156,6 +1321,12 @@ def replay(path):
         if not bad:
             print("no ambiguity under the stored schedule (nor under the 12 single pre-emptions tried)")
         return 1 if bad else 0
+    if r.get("kind") == "agg":
+        ops = [_tuplify(o) for o in r["ops"]]
+        print("history:", [agg_show(o) for o in ops])
+        mm = agg_check(ops)
+        print("mismatch with a model freshly built from the final definitions, on the current tree:", mm)
+        return 1 if mm else 0
     if r.get("kind") in ("xschedule", "xnorm"):
         import shutil
         scratch = scratch_dir("c08x")
